@@ -208,7 +208,9 @@ func (r *Read) walk(n *pg_query.Node) (*Node, error) {
 		if err != nil {
 			return nil, err
 		}
-		if !isValue(l) {
+		// operands of a plain comparison may themselves be allowed expressions (the statement
+		// only restricts the node kinds): "f" = ('x' OR 'y*') is garbage but confined
+		if e.Kind != pg_query.A_Expr_Kind_AEXPR_OP && !isValue(l) {
 			return nil, fmt.Errorf("left operand of %s is not a column, constant or parameter: %s", op, l)
 		}
 		switch e.Kind {
@@ -216,9 +218,6 @@ func (r *Read) walk(n *pg_query.Node) (*Node, error) {
 			rr, err := r.walk(e.Rexpr)
 			if err != nil {
 				return nil, err
-			}
-			if !isValue(rr) {
-				return nil, fmt.Errorf("right operand of %s is not a column, constant or parameter: %s", op, rr)
 			}
 			switch op {
 			case "=", "<", "<=", ">", ">=":
@@ -373,7 +372,7 @@ func (e *Env) value(n *Node) (Value, error) {
 		}
 		return e.Params[n.Param-1], nil
 	}
-	return Value{}, fmt.Errorf("not a value: %s", n)
+	return Value{}, &Outside{"operand is an expression, not a value: " + n.String()}
 }
 
 // Compare is the comparison both evaluators (SQL and Lucene side) share.
